@@ -217,7 +217,9 @@ RunResult run_sched(const Plan &p, EventLog &log, RunStats &stats, Progress *pro
         std::vector<Task> tasks((size_t)ntasks);
         for (int t = 0; t < ntasks; t++) { tasks[(size_t)t].id = t; tasks[(size_t)t].log.keep_text = true; s.tasks.push_back(&tasks[(size_t)t]); }
         for (auto &st : p.steps) if (st.task >= 0 && st.task < ntasks) tasks[(size_t)st.task].steps.push_back(&st);
-        if (prog) { prog->step = phase; prog->judged = 1; }
+        // a crash while the tasks run alone is some other property's failure (it would happen without any concurrency);
+        // ThreadSanitizer reports are judged in both phases (the driver looks at the report, not at this flag)
+        if (prog) { prog->step = phase; prog->judged = concurrent ? 1 : 0; }
         if (!concurrent) {
             // solo: each task alone, one after the other, same allocator configuration
             run_tasks(s, false);
